@@ -171,6 +171,21 @@ CHECKS = {
         "7 (quick) / 8 (thorough) with fingerprint merge audit.",
    technique="explicit-state BFS of the implementation with differential (before/after, turn-to-turn) oracles",
    ref="3/C11"),
+ "C15": dict(cat="fault_enumeration",
+   text="Stateless preemption-bounded exploration of the real DataManager/FileManager/YamlInterface: writer thread(s) and "
+        "ten main-thread scripts (save_all / wait / shutdown, one or two managers, waits chosen to collide with the 1 s "
+        "rate limit) run as real threads under a baton scheduler with scheduling points at every Event/Lock/sleep/file-"
+        "system primitive and every source line of data_manager.py and file_manager.py, virtual time, in-memory file "
+        "system. Every schedule with <=1 (quick) / <=2 (thorough) preemptions runs to completion; oracles: last saved "
+        "data on disk after clean shutdown; at every prefix of the file-system operation log (incl. inside a write) the "
+        "file is absent or one complete saved version; with one injected I/O error at each of the operations a later "
+        "save is written and nothing spins forever. Plus YAML value round trips and persisted machine variables with "
+        "expiry across a simulated reboot.",
+   note="Trusted: baton scheduler (mc/threads.py), in-memory FS (mc/memfs.py). Process-crash model (no fsync in MPF, power "
+        "loss out of scope); deepcopy atomic; a fresh YAML dumper object per execution; thorough is capped at 30000 "
+        "schedules per script (reported in the evidence).",
+   technique="stateless preemption-bounded schedule enumeration + crash-prefix and fault-position enumeration on the implementation",
+   ref="3/C15"),
 }
 NOT_YET = "check not built yet in this revision (planned, see DESIGN.md section 7)"
 
